@@ -1742,3 +1742,51 @@ def structural_refusals(ctx):
                     'inside the tolerance band are returned outside the limits', cl)
         else:
             ctx.ok(f'{cl.qualname}:is a clamp', r, f'`{src(v)}`', cl)
+
+
+@rule('C01.R7f', min_instances=3)
+def an_upper_limit_of_zero_is_a_given_limit(ctx):
+    """the constructors of the sized types (blob, string, array) and the functions of the module they hand their limits to:
+    whether an upper limit was GIVEN is asked by identity (`is None`); `upper or lower or default` / `if not maxlen` takes an
+    explicit upper limit of 0 (the type that holds only the empty value - what `ArrayOf(x, 0, 0)` and a rebuilt datainfo with
+    maxlen 0 ask for) as not given and silently widens the declared value set"""
+    m = ctx.m
+    UPPER = {'maxbytes', 'maxchars', 'maxlen'}
+    n = 0
+    todo = []
+    for cname in ('BLOBType', 'StringType', 'TextType', 'ArrayOf'):
+        ci = m.classes.get(f'{DT}.{cname}')
+        f = ci.methods.get('__init__') if ci else None
+        if f is not None:
+            todo.append((f, {a.arg for a in f.node.args.args} & UPPER))
+    seen = set()
+    while todo:
+        f, names = todo.pop()
+        if (f.qualname, tuple(sorted(names))) in seen or not names:
+            continue
+        seen.add((f.qualname, tuple(sorted(names))))
+        n += 1
+        ctx.analysed(f)
+        hits = []
+        for x in body_walk(f.node, into_lambda=True):
+            if isinstance(x, ast.BoolOp) and any(isinstance(v, ast.Name) and v.id in names for v in x.values[:-1] if isinstance(x.op, ast.Or)):
+                hits.append(x)
+            if isinstance(x, (ast.If, ast.IfExp, ast.While)):
+                t = x.test
+                while isinstance(t, ast.UnaryOp) and isinstance(t.op, ast.Not):
+                    t = t.operand
+                if isinstance(t, ast.Name) and t.id in names:
+                    hits.append(x.test)
+            if isinstance(x, ast.Call) and isinstance(x.func, ast.Name):
+                g = m.functions.get(f'{f.module.name}.{x.func.id}')
+                if g is not None and g.cls is None:
+                    pos = [a.arg for a in g.node.args.args]
+                    t2 = {pos[i] for i, a in enumerate(x.args) if i < len(pos) and isinstance(a, ast.Name) and a.id in names}
+                    t2 |= {k.arg for k in x.keywords if k.arg in pos and isinstance(k.value, ast.Name) and k.value.id in names}
+                    if t2:
+                        todo.append((g, t2))
+        ctx.check(not hits, f'{f.qualname}:an upper limit is tested by identity', hits[0] if hits else f.node, f'{sorted(names)} are never truth tested',
+                  f'`{src(hits[0]) if hits else ""}` decides by the truth value of an upper limit: an explicit 0 counts as "not given" and is replaced - a type declared to hold only '
+                  'the empty value accepts (and returns) non-empty ones', f)
+    if n < 3:
+        raise AnchorMissing('constructors of the sized datatypes not found')
